@@ -684,9 +684,12 @@ bool Session::handle_resend_request(const unsigned seqnum, const Message *msg)
 			handle_outbound_reject(seqnum, msg, "Invalid resend range: Begin > End or Begin = 0");
 		else if (!_persist)
 		{
-			const int nxt(static_cast<int>(_next_send_seq)), nseq(begin() >= nxt ? begin() + 1 : nxt);
+			// the gap ends with the requested range when that stops before the last number sent
+			const int nxt(static_cast<int>(_next_send_seq)),
+				nseq(begin() >= nxt ? begin() + 1 : end() && end() + 1 < nxt ? end() + 1 : nxt);
 			send(generate_sequence_reset(nseq, true), true, begin());
-			_next_send_seq = nseq;
+			if (nseq > nxt)
+				_next_send_seq = nseq;
 			slout_debug << "handle_resend_request scenario #" << (nseq == nxt ? 7 : 8);
 		}
 		else
@@ -726,22 +729,18 @@ bool Session::retrans_callback(const SequencePair& with, RetransmissionContext& 
 			//cout << "#4" << endl;
 		}
 		*/
-		if (!rctx._last) // start to infinity requested
+		// first number of the request not answered yet; the gap that remains ends with the requested range when that stops
+		// before the last number sent, otherwise at the number this session sends next
+		const unsigned first(rctx._last ? rctx._last + 1 : rctx._begin);
+		const unsigned nseq(first >= rctx._interrupted_seqnum ? first + 1 // requested beyond the last number sent
+			: rctx._end && rctx._end + 1 < rctx._interrupted_seqnum ? rctx._end + 1 : rctx._interrupted_seqnum);
+		if (first < nseq)
 		{
-			// handle case where requested seq is greater than current last sent seq (interrupted)
-			const unsigned nseq(rctx._begin >= rctx._interrupted_seqnum ? rctx._begin + 1 : rctx._interrupted_seqnum);
-			send(generate_sequence_reset(nseq, true), true, rctx._begin);
-			_next_send_seq = nseq;
-			slout_debug << "retrans_callback scenario #" << (nseq == rctx._interrupted_seqnum ? 4 : 5) << ' ' << rctx;
+			send(generate_sequence_reset(nseq, true), true, first);
+			if (nseq > _next_send_seq)
+				_next_send_seq = nseq;
 		}
-		else // range requested // was: if (rctx._end)
-		{
-			// handle case where requested seq is greater than current last sent seq (interrupted)
-			const unsigned nseq(rctx._last + 1 >= rctx._interrupted_seqnum ? rctx._last + 2 : rctx._interrupted_seqnum);
-			send(generate_sequence_reset(nseq, true), true, rctx._last + 1);
-			_next_send_seq = nseq;
-			slout_debug << "retrans_callback scenario #" << (nseq == rctx._interrupted_seqnum ? 1 : 6) << ' ' << rctx;
-		}
+		slout_debug << "retrans_callback closing gap fill " << first << " -> " << nseq << ' ' << rctx;
 		do_state_change(States::st_continuous);
 		return true;
 	}
